@@ -55,6 +55,14 @@ pub struct Setup {
     pub no_verify: bool,
     pub host_is_ip: bool,
     pub behaviour: Behaviour,
+    /// order in which the settings builder methods are called (a permutation index 0..6 of
+    /// timeout / starttls / no_tls_verify): the result may not depend on it
+    pub builder_order: u8,
+    /// connect with a clone() of the settings (what a connection pool does)
+    pub via_clone: bool,
+    /// the URL names no host ("ldaps:///", "ldap:///"): the connection is handed in as a pre-opened TCP
+    /// stream and the host to verify the certificate against is the documented default, localhost
+    pub no_host_via_stream: bool,
 }
 
 #[derive(Debug, Default, Clone)]
@@ -258,13 +266,24 @@ struct Obs {
 
 async fn client(setup: &Setup, port: u16) -> Obs {
     let host = if setup.host_is_ip { "127.0.0.1" } else { "localhost" };
-    let url = format!("{}://{}:{}", if setup.ldaps { "ldaps" } else { "ldap" }, host, port);
-    let mut s = LdapConnSettings::new().set_conn_timeout(Duration::from_secs(6));
-    if setup.starttls {
-        s = s.set_starttls(true);
+    let url = if setup.no_host_via_stream { format!("{}:///", if setup.ldaps { "ldaps" } else { "ldap" }) } else { format!("{}://{}:{}", if setup.ldaps { "ldaps" } else { "ldap" }, host, port) };
+    let mut s = LdapConnSettings::new();
+    const ORDERS: [[u8; 3]; 6] = [[0, 1, 2], [0, 2, 1], [1, 0, 2], [1, 2, 0], [2, 0, 1], [2, 1, 0]];
+    for step in ORDERS[(setup.builder_order % 6) as usize] {
+        s = match step {
+            0 => s.set_conn_timeout(Duration::from_secs(6)),
+            1 => if setup.starttls { s.set_starttls(true) } else { s },
+            _ => if setup.no_verify { s.set_no_tls_verify(true) } else { s },
+        };
     }
-    if setup.no_verify {
-        s = s.set_no_tls_verify(true);
+    if setup.no_host_via_stream {
+        match std::net::TcpStream::connect(("127.0.0.1", port)) {
+            Ok(st) => s = s.set_std_stream(ldap3::StdStream::Tcp(st)),
+            Err(e) => return Obs { establish: format!("Setup({})", e), has_tls_flag_ops: vec![] },
+        }
+    } else if setup.via_clone {
+        // (a pre-opened stream does not survive clone())
+        s = s.clone();
     }
     let r = tokio::time::timeout(Duration::from_secs(12), Caught::new(LdapConnAsync::with_settings(s, &url))).await;
     let mut o = Obs { establish: String::new(), has_tls_flag_ops: vec![] };
@@ -317,12 +336,12 @@ fn matrix(rng: &mut Rng, reps: usize) -> Vec<Setup> {
                     Behaviour::InjectDelayed,
                 ];
                 for b in bs.drain(..) {
-                    v.push(Setup { ldaps: false, starttls: true, no_verify, host_is_ip, behaviour: b });
+                    v.push(Setup { ldaps: false, starttls: true, no_verify, host_is_ip, behaviour: b, builder_order: rng.below(6) as u8, via_clone: rng.chance(1, 3), no_host_via_stream: !host_is_ip && rng.chance(1, 4) });
                 }
                 // ldaps (with and without the StartTLS flag, which ldaps must ignore)
                 for &st in &[false, true] {
                     for b in [Behaviour::Tls(Cert::Good), Behaviour::Tls(Cert::WrongName), Behaviour::Tls(Cert::Untrusted), Behaviour::Tls(Cert::SelfSigned), Behaviour::Close, Behaviour::Garbage] {
-                        v.push(Setup { ldaps: true, starttls: st, no_verify, host_is_ip, behaviour: b });
+                        v.push(Setup { ldaps: true, starttls: st, no_verify, host_is_ip, behaviour: b, builder_order: rng.below(6) as u8, via_clone: rng.chance(1, 3), no_host_via_stream: !host_is_ip && rng.chance(1, 4) });
                     }
                 }
             }
@@ -429,6 +448,42 @@ fn judge(setup: &Setup, obs: &Obs, tap: &Tap, rep: &mut Report) {
     }
     rep.count(&format!("behaviour_{}", bk), 1);
     rep.case(Some(fnv(format!("{:?}", setup).as_bytes())));
+}
+
+/// For C18 ("a missing host meaning localhost"): TLS establishment through `ldaps:///` and through
+/// `ldap:///` + StartTLS against a server whose trusted certificate is issued to localhost.
+/// Returns (mode, outcome of establishment).
+pub fn missing_host_probe() -> Vec<(String, String)> {
+    let rt = tokio::runtime::Builder::new_multi_thread().worker_threads(2).enable_all().build().expect("rt");
+    let out = rt.block_on(async {
+        let mut out = vec![];
+        for ldaps in [true, false] {
+            let setup = Setup { ldaps, starttls: !ldaps, no_verify: false, host_is_ip: false, behaviour: Behaviour::Tls(Cert::Good), builder_order: 0, via_clone: false, no_host_via_stream: true };
+            let l = match TcpListener::bind("127.0.0.1:0").await {
+                Ok(l) => l,
+                Err(e) => {
+                    out.push((if ldaps { "ldaps:///".to_string() } else { "ldap:/// + StartTLS".to_string() }, format!("Setup({})", e)));
+                    continue;
+                }
+            };
+            let port = l.local_addr().unwrap().port();
+            let tap = Arc::new(Mutex::new(Tap::default()));
+            let (tap2, s2) = (tap.clone(), setup.clone());
+            let srv = tokio::spawn(async move {
+                if let Ok(Ok((s, _))) = tokio::time::timeout(Duration::from_secs(10), l.accept()).await {
+                    handle(s, s2, tap2).await;
+                }
+            });
+            let obs = client(&setup, port).await;
+            let _ = tokio::time::timeout(Duration::from_secs(8), srv).await;
+            let notes = tap.lock().unwrap().notes.clone();
+            let outcome = if notes.is_empty() { obs.establish } else { format!("Setup({:?})", notes) };
+            out.push((if ldaps { "ldaps:///".to_string() } else { "ldap:/// + StartTLS".to_string() }, outcome));
+        }
+        out
+    });
+    rt.shutdown_background();
+    out
 }
 
 pub fn matrix_lane(ctx: &Ctx) -> Report {
